@@ -47,8 +47,8 @@ def run(run, only=None):
                 continue
             # thorough: the first TWO commands are fixed per condition (16^3 paths each instead of 16^4)
             for k2, nm2 in enumerate(c16_xh.P_CMDS):
-                if nm2 == "pop2" and nm not in ("push2",):
-                    continue        # illegal after a single level
+                if (nm2 == "pop2" and nm != "push2") or (nm2 == "pop1" and nm not in ("push1", "push2")):
+                    continue        # never legal after this first command: the condition would be vacuous
                 jobs.append(("props.c16_xh", "h_script", 600.0, {"first": k, "second": k2, "len": 3, "reduced": False,
                                                                  "name": "script/%s,%s+3" % (nm, nm2)}))
 
